@@ -338,11 +338,12 @@ pub fn ln_pflip<R: Rng>(
 ) -> usize {
     ln_weights
         .iter()
-        .map(|ln_w| (ln_w, rng.gen::<f64>().ln()))
+        // Gumbel-max in the log domain: argmax of ln_w - ln(-ln u), u in (0, 1).
+        // Same order as comparing ln(u1) with ln(u2) * exp(ln_w1 - ln_w2), but
+        // total for -inf log-weights (no -inf - -inf) and for every variate.
+        .map(|ln_w| ln_w - (-rng.sample::<f64, _>(Open01).ln()).ln())
         .enumerate()
-        .max_by(|(_, (ln_w1, l1)), (_, (ln_w2, l2))| {
-            l1.partial_cmp(&(l2 * (*ln_w1 - *ln_w2).exp())).unwrap()
-        })
+        .max_by(|(_, k1), (_, k2)| k1.partial_cmp(k2).unwrap())
         .unwrap()
         .0
 }
